@@ -89,7 +89,13 @@ pub fn generate(id: &str, run_seed: u64, _thorough: bool) -> Plan {
             }
         }
         "C05" => f_lease(run_seed, &LeaseOpts { modacks: true, limits: false }),
-        "C06" => f_consumers(run_seed, pick < 50),
+        "C06" => {
+            if pick < 85 {
+                f_consumers(run_seed, pick < 45)
+            } else {
+                f_consumers_saturated(run_seed)
+            }
+        }
         "C07" => {
             if pick < 50 {
                 f_delete(run_seed, true)
